@@ -306,7 +306,13 @@ def gen_jsonclass(n, rnd):
     bad = [{"__jsonclass__": ["no.such.module.Cls", []]}, {"__jsonclass__": ["decimal.NoSuchClass", []]},
            {"__jsonclass__": ["a b.C", []]}, {"__jsonclass__": ["", []]}, {"__jsonclass__": ["os;system", ["x"]]},
            {"__jsonclass__": ["decimal.Decimal", 5]}, {"__jsonclass__": ["decimal.Decimal", ["x", "y", "z", "t"]]},
-           {"__jsonclass__": ["NoModuleName", []]}, {"__jsonclass__": ["decimal.Decimal", "abc"]}]
+           {"__jsonclass__": ["NoModuleName", []]}, {"__jsonclass__": ["decimal.Decimal", "abc"]},
+           # descriptors the translator fails on with something else than its own error type
+           {"__jsonclass__": ["decimal.Decimal"]}, {"__jsonclass__": []}, {"__jsonclass__": {"a": 1}},
+           {"__jsonclass__": ["decimal.Decimal", ["abc"]]}, {"__jsonclass__": ["fractions.Fraction", [1, 0]]},
+           {"__jsonclass__": ["datetime.date", [10 ** 20, 1, 1]]}, {"__jsonclass__": ["datetime.date", [2020, 1, 2]], "extra": 1},
+           {"__jsonclass__": "x"}, {"__jsonclass__": 5}, {"__jsonclass__": None}, {"__jsonclass__": ["decimal.Decimal", None]},
+           {"__jsonclass__": [5, []]}, {"__jsonclass__": [None, []]}, {"__jsonclass__": [["a"], []]}]
     recs = []
     for _ in range(n):
         sv, dk = rnd.choice("12"), rnd.choice(["default", "default", "custom"])
